@@ -40,6 +40,10 @@ Proof.
         -- cbn [concat]. now rewrite Co.
 Qed.
 
+Lemma pending_of (r : list Z) :
+  match (match r with [] => None | _ :: _ => Some r end) with Some p => p | None => [] end = r.
+Proof. destruct r; reflexivity. Qed.
+
 Section StreamProofs.
   Variable t : Z.
   Variable L : Z.
@@ -68,8 +72,7 @@ Section StreamProofs.
     destruct (find_term t (slice file pos ge)) as [k|] eqn:F.
     - destruct LI as (o & E & Co). rewrite E. exists o. split; auto.
       rewrite Co. rewrite (eol_hit t file pos ge k) by (auto; lia).
-      pose proof F as F'. apply find_term_some in F' as (Lk & _).
-      fold (zlen (slice file pos ge)) in Lk. rewrite slice_len in Lk by lia.
+      pose proof (find_term_some_z _ _ _ F) as Lk. rewrite slice_len in Lk by lia.
       rewrite firstn_slice by lia. f_equal. lia.
     - destruct LI as (o & E & Co). rewrite E. rewrite slice_len by lia.
       replace (fstart + (consumed + (ge - pos))) with ge by lia.
@@ -145,9 +148,9 @@ Section StreamProofs.
         assert (Hx : [x] = slice file (end_ - 1) end_).
         { pose proof (zlen_nonneg c').
           assert (Hz : zlen c = zlen c' + 1) by (rewrite Ec, zlen_app; reflexivity).
-          rewrite Ec in Hc. symmetry in Hc.
-          apply app_is_slice in Hc as (_ & _ & Hc); try lia.
-          rewrite Hc. f_equal; lia. }
+          assert (Hc2 : c' ++ [x] = slice file pb pa) by (rewrite <- Ec; exact Hc).
+          apply app_is_slice in Hc2 as (_ & _ & Hc2); try lia.
+          rewrite Hc2. f_equal; lia. }
         destruct (last_is t c) eqn:Hl.
         * exists [c]. split; auto. cbn [concat]. rewrite app_nil_r.
           rewrite Ec in Hl. destruct (Z.eq_dec x t) as [->|Hxt].
@@ -177,8 +180,7 @@ Section StreamProofs.
         * exists [firstn (S (Z.to_nat (end_ - 1 - pb) + rel)) c]. split; auto.
           cbn [concat]. rewrite app_nil_r.
           rewrite Htgt, (eol_hit t file (end_ - 1) pa rel) by (auto; lia).
-          apply find_term_some in F as (Lr & _). fold (zlen (slice file (end_ - 1) pa)) in Lr.
-          rewrite slice_len in Lr by lia.
+          pose proof (find_term_some_z _ _ _ F) as Lr. rewrite slice_len in Lr by lia.
           rewrite Hc, firstn_slice by lia. f_equal. lia.
         * destruct HLG as (o' & -> & Co'). rewrite emit_ok. exists (c :: o'). split; auto.
           cbn [concat]. rewrite Co', Hc, Htgt.
@@ -219,7 +221,8 @@ Section StreamProofs.
               concat o = slice file pb tgt.
   Proof.
     intros Hc Hle Hpb Hlt Hin. destruct pending as [p|]; cbn [fetch_pending].
-    - apply app_is_slice in Hin as (H1 & H2 & H3); try lia.
+    - pose proof (zlen_nonneg p) as Hp.
+      apply app_is_slice in Hin as (H1 & H2 & H3); try lia.
       apply (fetch_step p pb (fstart + consumed) inner consumed); try lia.
       + rewrite H2 at 1. f_equal. lia.
       + rewrite H3. f_equal. lia.
@@ -248,7 +251,6 @@ Section StreamProofs.
         rewrite eol_past; lia.
       + destruct (Z.eqb_spec end_ U64MAX); [lia|].
         rewrite nls_pos by lia.
-        rewrite (skipn_slice_in file fstart ge (Z.to_nat (end_ - 1 - fstart))) in * by lia.
         assert (Hno1 : find_term t (slice file fstart (end_ - 1)) = None).
         { rewrite <- (slice_app file fstart (end_ - 1) ge) in Hno by lia.
           now apply find_term_none_app in Hno. }
@@ -259,7 +261,7 @@ Section StreamProofs.
       set (pos := fstart + consumed) in *.
       destruct (find_term t c) as [p|] eqn:F.
       + (* terminator found at file offset pos + p *)
-        pose proof F as F'. apply find_term_some in F' as (Lp & _).
+        pose proof (find_term_some_z _ _ _ F) as Lp.
         assert (Hnls : nls t file (fstart + 1) = pos + Z.of_nat p + 1).
         { rewrite nls_pos by lia. replace (fstart + 1 - 1) with fstart by lia.
           rewrite (eol_skip t file fstart pos) by (auto; lia).
@@ -282,12 +284,8 @@ Section StreamProofs.
         * apply (fetch_pending_spec
                    (match skipn (S p) c with [] => None | _ :: _ => Some (skipn (S p) c) end)
                    (consumed + zlen c) rest (pos + Z.of_nat p + 1)); try lia.
-          -- destruct (skipn (S p) c) eqn:Es; rewrite <- ?Es; try rewrite Hrl.
-             ++ rewrite zlen_nil in *. lia.
-             ++ lia.
-          -- assert (Happ : skipn (S p) c ++ concat rest = slice file (pos + Z.of_nat p + 1) ge).
-             { rewrite Hrem, H3. apply slice_app; unfold zlen in *; lia. }
-             destruct (skipn (S p) c) eqn:Es; rewrite <- ?Es; auto.
+          -- rewrite pending_of, Hrl. lia.
+          -- rewrite pending_of, Hrem, H3. apply slice_app; lia.
       + apply IH; try lia.
         * rewrite H3. f_equal. lia.
         * replace (fstart + (consumed + zlen c)) with (pos + zlen c) by lia.
@@ -295,3 +293,39 @@ Section StreamProofs.
           apply find_term_none_app. split; auto. now rewrite <- H2.
   Qed.
 End StreamProofs.
+
+(* AlignedBoundaryStream::new + polling to exhaustion *)
+Theorem stream_run_slice t L chunker file s e :
+  1 <= L -> zlen file < U64MAX -> chunker_ok file chunker -> 0 <= s -> 0 <= e ->
+  exists o, stream_run t L chunker (zlen file) s e = ROk o /\
+            concat o = slice file (nls t file s) (nls t file e).
+Proof.
+  intros HL Hsize Hck Hs He. unfold stream_run.
+  pose proof (zlen_nonneg file) as Hz.
+  destruct (Z.leb_spec e s) as [Hes|Hse]; cbn [orb].
+  { exists []. split; auto. symmetry. apply slice_empty. now apply nls_mono. }
+  destruct (Z.leb_spec (zlen file) s) as [Hzs|Hsz]; cbn [orb].
+  { exists []. split; auto. symmetry. apply slice_past. rewrite nls_past; lia. }
+  remember (Z.min (sat_add e L) (zlen file)) as ge eqn:Ege.
+  remember (if zlen file <=? e then U64MAX else e) as end_ eqn:Eend.
+  assert (Hge : ge <= zlen file) by lia.
+  assert (Hend : end_ = U64MAX /\ ge = zlen file \/ 0 < end_ < zlen file /\ end_ <= ge).
+  { subst end_ ge. unfold sat_add. destruct (Z.leb_spec (zlen file) e); cbv iota; [left|right]; lia. }
+  assert (Htgt : tgt t file end_ = nls t file e).
+  { unfold tgt. subst end_. destruct (Z.leb_spec (zlen file) e); cbv iota.
+    - rewrite Z.eqb_refl. symmetry. now apply nls_past.
+    - destruct (Z.eqb_spec e U64MAX); [lia|reflexivity]. }
+  assert (Hfuel : (Z.to_nat (zlen file) < S (Z.to_nat (zlen file)))%nat) by lia.
+  destruct (Z.eqb_spec s 0) as [->|Hs0].
+  - destruct (fetch_inner_spec t L chunker file HL Hsize Hck 0 (Z.le_refl 0) end_ ge Hge Hend
+                _ Hfuel (chunker 0 ge) 0) as (o & E & Co); try lia.
+    + apply Hck; lia.
+    + exists o. split; auto. rewrite Co, Htgt, (nls_nonpos t file 0) by lia. reflexivity.
+  - destruct (first_inner_spec t L chunker file HL Hsize Hck (s - 1) ltac:(lia) end_ ge Hge Hend
+                _ Hfuel (chunker (s - 1) ge) 0) as (o & E & Co); try lia.
+    + subst end_. destruct (Z.leb_spec (zlen file) e); cbv iota; unfold U64MAX in *; lia.
+    + subst ge. unfold sat_add, U64MAX in *. lia.
+    + replace (s - 1 + 0) with (s - 1) by lia. apply Hck; subst ge; unfold sat_add, U64MAX in *; lia.
+    + rewrite slice_empty by lia. reflexivity.
+    + exists o. split; auto. rewrite Co, Htgt. do 2 f_equal. lia.
+Qed.
